@@ -103,5 +103,5 @@ static void prop(Tape &t, Ctx &c) {
     if (rc >= 0 || deep) c.nontrivial(fmt("pub:%u:%d:%llx", api, rc >= 0, (unsigned long long) shape));
     if (rc >= 0) c.sample(fmt("%s len=%zu rc=%d type=%d", names[api], in.n, rc, type));
 }
-VF_TARGET("C09.pubkey_any", prop, 1024, 20)
+VF_TARGET("C09.pubkey_any", prop, 1024, 12)
 namespace vf { void vf_global_init(int, char **) { psCryptoOpen(PSCRYPTO_CONFIG); } }
